@@ -77,7 +77,7 @@ def open_finding_switches():
         import json
         import os
         out = {}
-        path = "/verif/known_findings.json"
+        path = os.path.join(os.environ.get("VERIF_ROOT", "/verif"), "known_findings.json")
         if os.path.exists(path):
             with open(path) as fh:
                 for f in json.load(fh).get("findings", []):
